@@ -93,6 +93,27 @@ def _is_counter(body, nm):
     return bool(stores) and all(stores)
 
 
+def _is_slot_index(body, nm, resolve=None, depth=0):
+    """Is `nm` used as a store/lookup subscript in this loop body, directly or inside a helper it is handed to (and whose result is
+    bound back to it: `cursor = _store_if_next(out, orders, cursor, order, value)`)?  Then it is a running output index."""
+    for st in body:
+        for n in walk_no_nested(st):
+            if isinstance(n, ast.Subscript) and isinstance(n.slice, ast.Name) and n.slice.id == nm:
+                return True
+            if isinstance(n, ast.Call) and resolve is not None and depth < 2:
+                g = resolve(n)
+                if g is None:
+                    continue
+                params = [a.arg for a in g.node.args.posonlyargs + g.node.args.args]
+                for k, a in enumerate(n.args):
+                    if isinstance(a, ast.Name) and a.id == nm and k < len(params) and _is_slot_index(g.node.body, params[k], resolve, depth + 1):
+                        return True
+                for kw in n.keywords:
+                    if isinstance(kw.value, ast.Name) and kw.value.id == nm and kw.arg in params and _is_slot_index(g.node.body, kw.arg, resolve, depth + 1):
+                        return True
+    return False
+
+
 class OrderDomain(NormDomain):
     name = 'ORDER'
 
@@ -174,6 +195,13 @@ class OrderDomain(NormDomain):
                     return self.P(fk, m)
         return None
 
+    # -- per-path state ----------------------------------------------------
+    def snapshot_state(self):
+        return dict(self.lower)
+
+    def restore_state(self, snap):
+        self.lower = dict(snap)
+
     # -- comparisons with lower bounds -------------------------------------
     def compare(self, op, a, b, node):
         ra, rb = self.rat(a), self.rat(b)
@@ -192,7 +220,7 @@ class OrderDomain(NormDomain):
                 if hi is not None and hi == 0 and isinstance(op, (ast.LtE, ast.Gt)):
                     return isinstance(op, ast.LtE)
         r = NormDomain.compare(self, op, a, b, node)
-        if r is None and node is not None and isinstance(op, ast.Eq):
+        if r is None and node is not None and isinstance(op, (ast.Eq, ast.NotEq)):
             try:
                 self.guards[ast.unparse(node)] = (a, b)
             except Exception:
@@ -339,8 +367,9 @@ class OrderDomain(NormDomain):
 
     def _guard(self, conds):
         for text, truth in reversed(conds):
-            if '==' in text and 'len(' not in text and '[' in text:
-                if truth and text in self.guards:
+            if ('==' in text or '!=' in text) and 'len(' not in text and '[' in text:
+                holds = truth if '==' in text else (not truth)          # `a != b` not taken is the guard a == b
+                if holds and text in self.guards:
                     return (text,) + self.guards[text]
                 return None
         return None
@@ -372,7 +401,11 @@ class OrderDomain(NormDomain):
         fi = frame.fi
         qual = fi.qual if fi is not None else None
         if qual not in self.fun_table:
-            return False
+            # the sweep may live in a private helper of the public routine (a shared `_xxx_seq` body): the family is that of
+            # the nearest caller that has one
+            qual = next((f_.qual for f_ in reversed(self.interp.callstack) if getattr(f_, 'qual', None) in self.fun_table), None)
+            if qual is None:
+                return False
         fam, parmap = self.fun_table[qual]
         it = self.interp
         rargs = [it.ev(a, frame) for a in node.iter.args]
@@ -420,7 +453,12 @@ class OrderDomain(NormDomain):
                 # assigned before it is read in the body: its entry value is dead
                 frame.env[nm] = Unknown('dead at loop head: %s' % nm)
                 continue
-            if r is not None and not (isinstance(v, Const) and isinstance(v.v, int) and _is_counter(node.body, nm)):
+            def _resolve(call, fi=fi):
+                if isinstance(call.func, ast.Name):
+                    g = self.interp.db.resolve_name(fi.module, call.func.id)
+                    return g if hasattr(g, 'node') and isinstance(getattr(g, 'node', None), ast.FunctionDef) else None
+                return None
+            if r is not None and not (isinstance(v, Const) and isinstance(v.v, int) and (_is_counter(node.body, nm) or _is_slot_index(node.body, nm, _resolve))):
                 k = self.match_explicit(r, fam, pv)
                 if k is not None:
                     head[nm] = k - lo_i
